@@ -505,6 +505,67 @@ def area_and_history_rules(rep):
     rep.floor("normalisations of the area", 1)
 
 
+MUTATORS = {"reset", "push_back", "emplace_back", "insert", "clear", "swap", "operator=", "assign", "emplace", "erase"}
+
+
+def config_written_rule(rep):
+    """CONFIG-WRITTEN: TestLauncher::treatTest builds every Test from the launcher's members (test->set<X>(this-><m>)); each such member
+    is the state a keyword of the .check file sets.  A member consumed there and written by no function other than the constructor is a
+    keyword whose handler writes somewhere else: the comparison is then made with the default although the file asked otherwise."""
+    u = os.path.join(REPO, "tfel-check/src/TestLauncher.cxx")
+    d = cfgdump([u], os.path.join(OUT, "C51", "tl"), funcs=r"^tfel::check::TestLauncher::", root=REPO)
+    funcs = load_functions(d)
+    def own_fields(f, sid):
+        return [(x, f.stmts[x]) for x in f.walk(sid) if f.stmts[x]["k"] == "MemberExpr" and f.stmts[x].get("declKind") == "Field"
+                and f.stmts[x].get("fieldClass") == "tfel::check::TestLauncher"]
+    def up(f, pm, x):
+        p_ = pm.get(x)
+        while p_ is not None and f.stmts[p_]["k"] in ("ImplicitCastExpr", "ParenExpr", "MaterializeTemporaryExpr", "CXXBindTemporaryExpr"):
+            x, p_ = p_, pm.get(p_)
+        return x, p_
+    consumed, written = {}, {}
+    for f in funcs:
+        if f.body is None:
+            continue
+        pm = f.parent_map()
+        ctor = bool(re.match(r"^tfel::check::TestLauncher::TestLauncher\b", f.qname))
+        in_treat_test = f.qname.startswith("tfel::check::TestLauncher::treatTest") and not f.qname.startswith("tfel::check::TestLauncher::treatTestType")
+        for s_, n in f.stmts.items():
+            if in_treat_test and n["k"] == "CXXMemberCallExpr" and re.match(r"^tfel::check::Test::set\w+$", n.get("callee") or ""):
+                for a in n.get("args") or []:
+                    for x, m in own_fields(f, a):
+                        consumed.setdefault(m["member"], (f, s_, n["callee"].split("::")[-1]))
+            if ctor or n["k"] != "MemberExpr" or n.get("declKind") != "Field" or n.get("fieldClass") != "tfel::check::TestLauncher":
+                continue
+            x, p_ = up(f, pm, s_)
+            if p_ is None:
+                continue
+            pn = f.stmts[p_]
+            w = False
+            if pn["k"] == "MemberExpr" and pn.get("declKind") == "CXXMethod" and pn.get("member") in MUTATORS:
+                w = True
+            elif pn["k"] in ("BinaryOperator", "CompoundAssignOperator"):
+                bo = f.binop(p_)
+                w = bool(bo) and bo[0] in ("=", "+=", "-=", "*=", "/=", "|=", "&=") and f.strip(bo[1]) == f.strip(x)
+            elif pn["k"] == "CXXOperatorCallExpr" and re.search(r"operator[-+*/|&]?=$", pn.get("callee") or "") and (pn.get("args") or [None])[0] in (x, s_):
+                w = True
+            if w:
+                written.setdefault(n["member"], f.qname.split("(")[0])
+    rep.count("launcher members consumed by treatTest", len(consumed))
+    bad = 0
+    for m, (f, s_, setter) in sorted(consumed.items()):
+        if m not in written:
+            bad += 1
+            rep.fail("CONFIG-WRITTEN@tfel::check::TestLauncher#%s" % m,
+                     "%s: treatTest passes the launcher member '%s' to Test::%s, but no function of TestLauncher other than the constructor "
+                     "ever writes it: the keyword meant to set it writes another member and every test runs with the constructor's default"
+                     % (f.short_loc(s_).replace(REPO + "/", ""), m, setter))
+    if not bad:
+        rep.ok("each of the %d launcher members treatTest hands to a Test is written by a keyword handler (%s)"
+               % (len(consumed), ", ".join("%s<-%s" % (m, written[m].split("::")[-1]) for m in sorted(consumed))))
+    rep.floor("launcher members consumed by treatTest", 7)
+
+
 def run(tier):
     rep = Report("C51", tier, "other", RULE)
     units = sorted(set(os.path.join(REPO, v[0]) for v in TARGETS.values()))
@@ -525,6 +586,7 @@ def run(tier):
     always_checked(rep)
     static_state_rule(rep)
     area_and_history_rules(rep)
+    config_written_rule(rep)
     # positive control: a copy of the classical 'err > prec' loop must be reported, its '!(err <= prec)' twin must not
     dc = cfgdump([ctl], os.path.join(OUT, "C51", "ctl"), funcs=r"^verif_ctl::", flags_for=lambda u: (header_flags(), VERIF))
     cf = load_functions(dc)
